@@ -892,8 +892,14 @@ class Engine:
     def on_round(self, x, n):
         if self.round_hook is not None:
             return self.round_hook(x, n)
-        # formatting only: an unconstrained value near x
-        r = self.fresh_real('round')
+        # round half to even is not modelled exactly: r is a multiple of 10^-n within half a unit of x (ties: either neighbour)
+        nd = 0 if n is None else int(n)
+        if abs(nd) > 12:
+            return SymFloat(self.fresh_real('round'))
+        k = self.fresh_int('roundk')
+        scale = realval(Fraction(10) ** nd)
+        r = z3.ToReal(k) / scale
+        self.add_axiom(z3.And(r - x.t <= realval(Fraction(1, 2)) / scale, x.t - r <= realval(Fraction(1, 2)) / scale))
         return SymFloat(r)
 
     # ---- exploration
